@@ -6,7 +6,7 @@ META = {
                    "validator's verdict on a frame does not depend on the bytes following it in the buffer (self-composition on the real body validator). L2 (exact consumption, "
                    "sticky corruption in the real loader loop) — see jobs. Meta-argument (not machine-checked): by L1-L3 the loader state after feeding any partition of a "
                    "stream equals the state after feeding the concatenation, by induction on the number of chunks.",
-    "outside": ["a direct multi-chunk run through the real heap-string loader", "the handshake/message boundary (recover_unused_bytes)", "_dbus_header_load's own use of the buffer"],
+    "outside": ["a direct multi-chunk run through the real heap-string loader", "ordering between recover_unused_bytes and the first socket read (socket_do_iteration / socket_handle_watch)", "_dbus_header_load's own use of the buffer"],
 }
 def _other(pid):
     p = os.path.join(os.path.dirname(__file__), pid + ".py")
@@ -28,6 +28,22 @@ def jobs(tier):
         J.append(proto)
     for fr in ((1,) if tier == "quick" else (1, 2)):
         J.append(loader_job(fr, "C11.L2", skip_findings=True))
+    J.append(Job(name="L4.transport.queue", group="C11.L4", harness="harness/C11_transport.c", defines={"K": 3}, env=["assert_stubs.c"], checks="assert", unwind=6, timeout=600,
+                 extra=["--object-bits", "12"],
+                 encodes=["_dbus_transport_queue_messages", "_dbus_transport_get_dispatch_status", "recover_unused_bytes", "_dbus_transport_disconnect", "_dbus_transport_try_to_authenticate (cached-true path)"],
+                 stubs=["loader = ghost that has framed 0..3 messages and may be corrupt behind them", "DBusString = length-only ghost; copy / add_counter / framing may fail (symbolic)", "connection queue = ghost order log"],
+                 assumes=["transport already authenticated", "live-message byte and fd limits not reached", "no SASL encoding layer (needs_decoding false)"],
+                 bounds="0..3 framed messages, corrupt or intact, leftover handshake bytes 0..100 (recovered before or not), any combination of allocation failures",
+                 shape="transport drain of framed messages"))
+    for e, nm in ((0, "handle_watch"), (1, "do_iteration")):
+        J.append(Job(name=f"L5.socket.{nm}", group="C11.L5", harness="harness/C11_socket.c", defines={"ENTRY": e}, env=["assert_stubs.c"], checks="assert", unwind=8, timeout=600,
+                     extra=["--object-bits", "12"],
+                     encodes=["socket_handle_watch" if e == 0 else "socket_do_iteration", "do_authentication", "do_reading", "read_data_into_auth", "write_data_from_auth", "check_read_watch", "check_write_watch",
+                              "do_io_error", "unix_error_with_read_to_come", "socket_disconnect", "free_watches"],
+                     stubs=["auth object = ghost state that changes arbitrarily after each read / write", "_dbus_transport_try_to_authenticate = cached flag, or (auth state AUTHENTICATED) authorize-or-disconnect",
+                            "socket reads / writes / poll = symbolic results, at most 2 successful reads and 2 writes per step", "_dbus_transport_queue_messages = contract of C11.L4 (recovers leftovers first)"],
+                     assumes=["invariant J: authenticated => leftovers recovered (restored after each step by the connection's dispatch-status call, C11.L4)", "credentials byte already exchanged", "no outgoing messages (C15.send)"],
+                     bounds="one step from any auth state / watch / flag combination; at most 2 successful socket reads and 2 writes within the step", shape=f"one {nm} step"))
     return J
 
 def loader_job(frames, group, skip_findings):
